@@ -224,6 +224,107 @@ def e2e_matrix(tier: str, seeds: List[Tuple[str, str]]) -> List[dict]:
 
 
 # ------------------------------------------------------------------------------------------------------------
+# (b2) dependency chains: the per-call / per-feature strict flag below the requested feature (Model/ValidateChain.v)
+# ------------------------------------------------------------------------------------------------------------
+CHAIN_ATYPES = {"INT32": "A_int32", "INT64": "A_int64", "STRING": "A_string", "DOUBLE": "A_float64", "BOOLEAN": "A_bool"}
+OWN = {"SAbsent": None, "STrue": True, "SFalse": False}
+
+
+def chain_levels(rng: Any, pandas: bool = False) -> List[dict]:
+    """levels top..source: declared type (or None), produced type, own strict option"""
+    depth = rng.randrange(2, 5)
+    lv = []
+    for i in range(depth):
+        prod = rng.choice([t for t in CHAIN_ATYPES if not (pandas and t == "INT32")])
+        r = rng.random()
+        decl = None if r < 0.3 else prod if r < 0.6 else rng.choice(list(CHAIN_ATYPES))
+        own = "SAbsent" if rng.random() < 0.8 else rng.choice(["STrue", "SFalse"])
+        lv.append({"declared": decl, "produced": prod, "own": own})
+    # make the interesting pair (lenient-compatible, strict-incompatible) frequent at the DEEPEST levels
+    if rng.random() < 0.6:
+        j = rng.randrange(1, depth)
+        lv[j].update(declared="INT32", produced="INT64")
+    return lv
+
+
+def chain_one(fw: str, lv: List[dict], api_flag: bool) -> str:
+    import pyarrow as pa
+    from mloda.provider import FeatureGroup, DataCreator
+    from mloda.user import mloda, Feature, PluginCollector
+    cfw = _cfw(fw)
+    n = len(lv)
+    groups = []
+
+    def feat(i: int) -> Any:
+        opts = {} if OWN[lv[i]["own"]] is None else {"strict_type_enforcement": OWN[lv[i]["own"]]}
+        return Feature(f"c{i}", data_type=_dt(lv[i]["declared"]), options=opts)
+
+    for i in range(n):
+        at = atypes()[CHAIN_ATYPES[lv[i]["produced"]]]
+        ns: Dict[str, Any] = {}
+        ns["compute_framework_rule"] = classmethod(lambda cls, _c=cfw: {_c})
+        if i == n - 1:
+            ns["input_data"] = classmethod(lambda cls, _i=i: DataCreator({f"c{_i}"}))
+        else:
+            ns["input_features"] = lambda self, options, feature_name, _i=i: {feat(_i + 1)}
+            ns["match_feature_group_criteria"] = classmethod(lambda cls, feature_name, options, data_access_collection=None, _i=i:
+                                                             str(getattr(feature_name, "name", feature_name)) == f"c{_i}")
+
+        def calc(cls: Any, data: Any, features: Any, _i: int = i, _at: Any = at) -> Any:
+            if fw == "PyArrowTable":
+                col = pa.nulls(2, type=_at)
+                if data is None or _i == n - 1:
+                    return pa.table({f"c{_i}": col})
+                return data.append_column(f"c{_i}", col)
+            vals = NONARROW_VALUES[CHAIN_ATYPES[lv[_i]["produced"]]]
+            import pandas as pd
+            if data is None or _i == n - 1:
+                return pd.DataFrame({f"c{_i}": vals})
+            data = data.copy()
+            data[f"c{_i}"] = vals
+            return data
+        ns["calculate_feature"] = classmethod(calc)
+        groups.append(type(f"C17Chain_{fw}_{i}_{n}", (FeatureGroup,), ns))
+    try:
+        mloda.run_all([feat(0)], compute_frameworks={cfw}, plugin_collector=PluginCollector.enabled_feature_groups(set(groups)),
+                      strict_type_enforcement=api_flag)
+        return "ok"
+    except Exception as e:  # noqa: BLE001
+        s_ = str(e)
+        if ("conflicting values" in s_ and "Duplicate key" in s_) or "already exists in group options with a different value" in s_:
+            return "conflict"
+        return classify_exc(e)
+
+
+def chain_cases(rng: Any, n: int) -> List[dict]:
+    out = []
+    for k in range(n):
+        fw = "PyArrowTable" if k % 4 else "PandasDataFrame"
+        lv = chain_levels(rng, fw != "PyArrowTable")
+        api = rng.random() < 0.5
+        out.append({"fw": fw, "levels": lv, "api_flag": api, "obs": chain_one(fw, lv, api)})
+    # the witness of C17_api_flag_untyped_request_refuted and its typed twin
+    for top_decl in (None, "INT64"):
+        lv = [{"declared": top_decl, "produced": "INT64", "own": "SAbsent"}, {"declared": None, "produced": "STRING", "own": "SAbsent"},
+              {"declared": "INT32", "produced": "INT64", "own": "SAbsent"}]
+        out.append({"fw": "PyArrowTable", "levels": lv, "api_flag": True, "obs": chain_one("PyArrowTable", lv, True)})
+    return out
+
+
+def chain_term(c: dict) -> str:
+    def lvl(l: dict) -> str:
+        return (f"{{| l_declared := {cq_dtype_opt(l['declared'])}; l_actual := from_arrow_spec {CHAIN_ATYPES[l['produced']]}; "
+                f"l_own := {l['own']} |}}")
+    obs = {"ok": "Some COk", "mismatch": "Some CMismatch", "conflict": "Some CConflict"}.get(c["obs"], "None")
+    return (f"(({'true' if c['api_flag'] else 'false'}, {lvl(c['levels'][0])}, [{'; '.join(lvl(l) for l in c['levels'][1:])}]), {obs})")
+
+
+def chain_untyped_request_domain(c: dict) -> bool:
+    """known-defect domain: per-call flag, UNTYPED requested feature, a typed feature below it"""
+    return c["api_flag"] and c["levels"][0]["declared"] is None and any(l["declared"] for l in c["levels"][1:])
+
+
+# ------------------------------------------------------------------------------------------------------------
 # (c) prepare-time conflict
 # ------------------------------------------------------------------------------------------------------------
 
@@ -254,10 +355,20 @@ EXTRA_DEFS = """
 Definition opt_bool_eqb (a : option bool) (b : bool) := match a with Some x => Bool.eqb x b | None => false end.
 Definition chk_validator (c : vcase * option bool) := opt_bool_eqb (snd c) (validate_raises code_strict code_lenient (fst c)).
 Definition chk_e2e (c : vcase * option bool) := opt_bool_eqb (snd c) (validate_raises strict_spec lenient_spec (fst c)).
+Definition chain_outcome_eqb (a b : chain_outcome) := match a, b with CConflict, CConflict | CMismatch, CMismatch | COk, COk => true | _, _ => false end.
+Definition chk_chain (c : (bool * level * list level) * option chain_outcome) :=
+  match snd c with Some o => chain_outcome_eqb o (chain_run strict_spec lenient_spec (fst (fst (fst c))) (snd (fst (fst c))) (snd (fst c))) | None => false end.
+(* what the statement asks for: EVERY typed feature of a strict call is judged strictly *)
+Definition chk_chain_spec (c : (bool * level * list level) * option chain_outcome) :=
+  match c with ((api, top, rest), o) =>
+    match o with
+    | Some COk => negb (existsb (fun l => validate_raises strict_spec lenient_spec (vcase_of l (if api then STrue else l_own l))) (top :: rest))
+    | Some CMismatch => existsb (fun l => validate_raises strict_spec lenient_spec (vcase_of l (if api then STrue else l_own l))) (top :: rest)
+    | _ => false end end.
 Definition chk_conflict (c : (option dtype * option dtype) * option bool) :=
   opt_bool_eqb (snd c) (match set_data_type (fst (fst c)) (snd (fst c)) with inr _ => true | inl _ => false end).
 """
-REQ = ["MV.Spec.Types", "MV.Model.Validate", "MV.Gen.TypeTables", "MV.Proofs.TypesP"]
+REQ = ["MV.Spec.Types", "MV.Model.Validate", "MV.Model.ValidateChain", "MV.Gen.TypeTables", "MV.Proofs.TypesP"]
 DIAG_REQ = ["MV.Spec.Types", "MV.Gen.TypeTables"]
 
 
@@ -379,6 +490,42 @@ def run(rep: vlib.Reporter, tier: str, seed: int) -> None:
         found_input = True
     for h in hc:
         rep.nontrivial(("h", h["fw"], [(x["declared"], x["atype"]) for x in h["seq"]]))
+
+    # (b3) dependency chains (depth 2-4): the model's outcome (faithful) and the statement's (every typed feature of a strict call
+    # is judged strictly); the two differ exactly in the recorded domain `untyped requested feature + per-call flag`
+    chc = chain_cases(_random.Random(seed * 37 + 5), 600 if tier == "thorough" else 120)
+    cterms = [chain_term(c) for c in chc]
+    cty = "(bool * level * list level) * option chain_outcome"
+    bad_m = set(vlib.run_cases("C17", "chain", REQ, "chk_chain", cterms, extra_defs=EXTRA_DEFS, case_type=cty)[0])
+    bad_s = set(vlib.run_cases("C17", "chain_spec", REQ, "chk_chain_spec", cterms, extra_defs=EXTRA_DEFS, case_type=cty)[0])
+    cdist: Dict[str, int] = {}
+    for i, c in enumerate(chc):
+        k = f"depth{len(c['levels'])}:{'api' if c['api_flag'] else 'noapi'}:{c['obs'].split(':')[0]}"
+        cdist[k] = cdist.get(k, 0) + 1
+        if any(l["declared"] for l in c["levels"][1:]):
+            rep.nontrivial(("chain", c["fw"], json.dumps(c["levels"]), c["api_flag"]))
+        own_conflict = c["obs"] == "conflict"
+        if i in bad_m and i in bad_s:
+            rep.finding(f"chain:{json.dumps(c['levels'])}:{c['api_flag']}:{c['obs']}",
+                        f"dependency chain {c['levels']} (per-call strict flag {c['api_flag']}, {c['fw']}): run_all outcome {c['obs']!r} is neither "
+                        "the model's (Model/ValidateChain.chain_run) nor what the statement asks for", {"kind": "chain", **c})
+            found_input = True
+        elif i in bad_s and not own_conflict:
+            # the faithful model reproduces it, the statement does not hold
+            if chain_untyped_request_domain(c):
+                rep.finding("C17-strict-per-call-skips-typed-dependencies-of-untyped-request",
+                            f"{c['levels']}: outcome {c['obs']}", {"kind": "chain", **c})
+            else:
+                rep.finding(f"chain-spec:{json.dumps(c['levels'])}:{c['api_flag']}:{c['obs']}",
+                            f"dependency chain {c['levels']} (per-call strict flag {c['api_flag']}, {c['fw']}): run_all outcome {c['obs']!r} is not "
+                            "what the declared types and the strict/lenient tables ask for at every depth", {"kind": "chain", **c})
+                found_input = True
+        elif i in bad_m:
+            rep.finding(f"chain-model:{json.dumps(c['levels'])}:{c['api_flag']}:{c['obs']}",
+                        f"dependency chain {c['levels']} (per-call strict flag {c['api_flag']}, {c['fw']}): run_all outcome {c['obs']!r} is not the "
+                        "model's (Model/ValidateChain.chain_run); it agrees with the statement", {"kind": "chain", **c}, found_input=False)
+    rep.count(len(chc))
+    rep.add("chains", {"cases": len(chc), "distribution": cdist, "model_disagreements": len(bad_m), "statement_disagreements": len(bad_s)})
 
     # (c)
     cc = conflict_cases()
